@@ -402,10 +402,141 @@ def run_task(task):
         ex.call_mir(cfg_types, [Ref(ccell, 0)])
         ex.call_mir(cfg_values, [Ref(ccell, 0)])
         ex.call_mir(cfg_cache, [Ref(ccell, 0)])
+        if task.get('mode') == 'values':
+            ex.notes['cfg'] = ccell[0]; return 'values'
         ex.call_mir(side, [Ref(ccell, 0)])
         return 'ok'
 
+    def post_values(ex):
+        """C06 on whole programs: every value the real propagate_values attached to an expression node of a program statement must be
+        the value of that expression at EVERY dynamic instance of the statement, for all parameter values and paths"""
+        sk, kinds, conds = ex.notes['sk'], ex.notes['kinds'], ex.notes['conds']
+        text = describe(sk, kinds, conds)
+        stmts = {}
+        for b in ir.get(ex.notes['cfg'], 'basic_blocks').items:
+            for st in ir.get(b, 'stmts').items:
+                st = deref(st); loc = ir.get(ir.get(st, 'meta'), 'location').f[0]
+                if st.var == 'Substitution' and deref(ir.get(st, 'rhe')).var == 'Phi': continue
+                if loc in kinds or loc in conds: stmts[loc] = st
+        nclaims = [0]
+
+        def claim_of(e):
+            vk = ir.get(ir.get(e, 'meta') if not (e.var == 'Number') else e.f[0], 'value_knowledge') if False else None
+            m = e.f[0] if e.var == 'Number' else ir.get(e, 'meta')
+            vk = deref(m).f[pr.defs.struct_fields('ir::Meta').index('value_knowledge')]
+            v = deref(vk).f[0]
+            if v.var != 'Some': return None
+            red = deref(v.f[0])
+            if red.var == 'FieldElement': return ('field', red.f[0].t)
+            if red.var == 'Boolean': return ('bool', red.f[0])
+            return None
+
+        def ev(e, st, pc, obls, where):
+            """value of IR expression e in reference state st; appends (pc, claim holds) for every node with a claim"""
+            e = deref(e)
+            if isinstance(e, BoxV): e = deref(e.f[0])
+            k = e.var
+            if k == 'Number': val = e.f[1].t
+            elif k == 'Variable':
+                nm_ = ir.get(ir.get(e, 'name'), 'name').concrete()
+                if nm_ in st: val = st[nm_]
+                else:       # a signal: its value is unconstrained in the reference run, so any constant claimed for it is refutable
+                    val = z3.Int('signal_%s_%d' % (nm_, len(obls))); ex.h.inputs[str(val)] = val
+            elif k == 'InfixOp':
+                l = ev(ir.get(e, 'lhe'), st, pc, obls, where); r = ev(ir.get(e, 'rhe'), st, pc, obls, where); op = ir.get(e, 'infix_op').var
+                if op == 'Add': val = fadd(l, r)
+                elif op == 'Lesser': val = ('bool', fval(l) < fval(r))
+                else: raise Unsupported('operator %s in the reference semantics' % op)
+            elif k == 'Access':
+                ix = ev(deref(ir.get(e, 'access').items[0]).f[0], st, pc, obls, where)
+                v_ = fval(ix); c = z3.And(v_ >= 0, v_ <= 1) if is_sym(v_) else (0 <= v_ <= 1)
+                if c is False: raise Stop()
+                if c is not True: pc.append(c)
+                d = st['D']; val = z3.If(ix == 0, d[0], d[1]) if is_sym(ix) else d[ix]
+            elif k == 'Update':
+                ev(deref(ir.get(e, 'access').items[0]).f[0], st, pc, obls, where); ev(ir.get(e, 'rhe'), st, pc, obls, where)
+                return None
+            elif k == 'Call':
+                a = ev(ir.get(e, 'args').items[0], st, pc, obls, where); val = fadd(a, 1)
+            else: raise Unsupported('expression %s in the reference semantics' % k)
+            c = claim_of(e)
+            if c is not None:
+                nclaims[0] += 1
+                if c[0] == 'field':
+                    holds = (val == c[1]) if not isinstance(val, tuple) else False
+                else:
+                    truth = val[1] if isinstance(val, tuple) else (val != 0)
+                    holds = (truth == c[1]) if is_sym(truth) else (bool(truth) == bool(c[1]))
+                obls.append((list(pc), holds, 'the %s node of statement %s is claimed to be %s' % (k, where, c[1])))
+            return val
+
+        A0 = z3.Int('A0'); ex.h.inputs['A0'] = A0; ex.assume(z3.And(A0 >= 0, A0 < P))
+        obls = []
+        slv = z3.Solver(); slv.set('timeout', 20000); slv.add(A0 >= 0, A0 < P)
+        def feasible(c):
+            slv.push(); slv.add(c); r = slv.check(); slv.pop()
+            if r == z3.unknown: raise Unsupported('reference run: solver returned unknown')
+            return r == z3.sat
+
+        def leaf(i, st, pc):
+            kk = kinds[i]; irst = stmts.get(i)
+            if irst is not None:
+                for fld in ('rhe', 'arg', 'value', 'lhe'):
+                    try: e = ir.get(irst, fld)
+                    except (KeyError, ValueError): continue
+                    ev(e, st, pc, obls, i)
+            # then the effect of the statement on the reference state
+            if kk in ('assertB', 'final', 's===B'): return
+            if kk.startswith('D['):
+                ix = {'D[0]': 0, 'D[1]': 1, 'D[B]': st['B']}[kk[:4]]
+                val = {'D[0]=0': 0, 'D[1]=0': 0, 'D[0]=A': st['A'], 'D[1]=B': st['B'], 'D[B]=1': 1}[kk]
+                d = st['D']; st['D'] = [z3.If(ix == 0, val, d[0]), z3.If(ix == 1, val, d[1])] if is_sym(ix) else [val if ix == 0 else d[0], val if ix == 1 else d[1]]
+                return
+            if kk in ('C=D[0]', 'C=D[B]'):
+                ix = 0 if kk == 'C=D[0]' else st['B']; d = st['D']
+                st['C'] = z3.If(ix == 0, d[0], d[1]) if is_sym(ix) else d[ix]; return
+            tgt, val = {'B=0': ('B', 0), 'C=0': ('C', 0), 'B=A': ('B', st['A']), 'B=1': ('B', 1), 'B=B+1': ('B', fadd(st['B'], 1)), 'C=B': ('C', st['B']), 'C=1': ('C', 1),
+                        'C=C+B': ('C', fadd(st['C'], st['B'])), 'A=B': ('A', st['B']), 'C=g(B)': ('C', fadd(st['B'], 1))}[kk]
+            st[tgt] = val
+
+        def run(items, pc, st, budget):
+            if not items: return
+            s_, rest = items[0], items[1:]
+            k = s_[0]
+            if k == 'leaf':
+                pc = list(pc); n0 = len(pc)
+                try: leaf(s_[1], st, pc)
+                except Stop: return
+                if len(pc) > n0 and not feasible(z3.And(*pc)): return
+                return run(rest, pc, st, budget)
+            if k == 'block': return run(list(s_[1]) + list(rest), pc, st, budget)
+            i = s_[1]; pc = list(pc)
+            irst = stmts.get(i)
+            cval = ev(ir.get(irst, 'cond'), st, pc, obls, i) if irst is not None else ('bool', fval(st[conds[i]]) < 3)
+            c = cval[1]; cz = c if is_sym(c) else z3.BoolVal(bool(c))
+            cp = lambda d_: {k_: (list(v_) if isinstance(v_, list) else v_) for k_, v_ in d_.items()}
+            for val in (True, False):
+                pcn = pc + [cz if val else z3.Not(cz)]
+                if not feasible(z3.And(*pcn)): continue
+                if k == 'if': run(([s_[2]] if val else []) + list(rest), pcn, cp(st), budget)
+                elif k == 'ifelse': run([s_[2] if val else s_[3]] + list(rest), pcn, cp(st), budget)
+                else:
+                    if val:
+                        n = budget.get(i, 0)
+                        if n >= UNROLL: continue
+                        nb = dict(budget); nb[i] = n + 1
+                        run([s_[2], s_] + list(rest), pcn, cp(st), nb)
+                    else: run(rest, pcn, cp(st), budget)
+        run([sk], [], {'A': A0, 'B': 0, 'C': 0, 'D': [0, 0]}, {})
+        info = {'program': text, 'dt': dt}
+        for pc, holds, what in obls:
+            if holds is True: ex.oblige(True, 'value-claim', what); continue
+            hz = holds if is_sym(holds) else z3.BoolVal(bool(holds))
+            ex.oblige(z3.Implies(z3.And(*pc), hz) if pc else hz, 'value-claim', '%s, but it has another value in some execution (%s)' % (what, text), extra=info)
+        ex.oblige(True, 'claims', 'every value claim on this program checked (%d claim instances)' % nclaims[0])
+
     def post(ex, res):
+        if res == 'values': return post_values(ex)
         if res != 'ok': return
         sk, kinds, conds = ex.notes['sk'], ex.notes['kinds'], ex.notes['conds']
         text = describe(sk, kinds, conds)
